@@ -896,7 +896,10 @@ impl Storage {
         let mut batch = self.batch();
 
         for ss in scripts {
-            if ss.block_number >= to_number {
+            // The history of a script is scanned even if its block number is less than
+            // `to_number`: the block number is updated after the matched blocks are filtered, so if
+            // the process was killed in between, there are records which are ahead of it.
+            {
                 let script = ss.script;
                 let mut key_prefix = vec![match ss.script_type {
                     ScriptType::Lock => KeyPrefix::TxLockScript as u8,
@@ -1024,7 +1027,7 @@ impl Storage {
                     });
 
                 // update script filter block number
-                {
+                if ss.block_number >= to_number {
                     let mut key = Key::Meta(FILTER_SCRIPTS_KEY).into_vec();
                     key.extend_from_slice(script.as_slice());
                     key.extend_from_slice(match ss.script_type {
